@@ -46,6 +46,9 @@ pub enum K {
     H,
     /// plain call of about 300 KB: call and reply are larger than the kernel's socket buffers
     G,
+    /// streaming call: once the server is idle the service's stream produces a small item, one of
+    /// about 700 KB (several socket writes) and a final small one, then ends
+    W,
 }
 
 fn call(kind: K, id: u32) -> (Vec<u8>, Option<Value>) {
@@ -58,11 +61,29 @@ fn call(kind: K, id: u32) -> (Vec<u8>, Option<Value>) {
     let (v, reply) = match kind {
         K::P | K::B | K::H | K::G => (json!({"method": "t.Plain", "parameters": {"n": id, "tag": tag}}), Some(json!({"parameters": {"n": id, "tag": tag}}))),
         K::O => (json!({"method": "t.Plain", "parameters": {"n": id, "tag": tag}, "oneway": true}), None),
+        K::W => (json!({"method": "t.Watch", "parameters": {"k": id}, "more": true}), None),
         K::F => (json!({"method": "t.Fail", "parameters": {"n": id}}), Some(json!({"error": "t.Failed", "parameters": {"n": id}}))),
     };
     let mut f = serde_json::to_vec(&v).unwrap();
     f.push(0);
     (f, reply)
+}
+
+/// The three items of stream `k`: (what the service's stream yields, what the client must receive).
+fn stream_items(k: u32) -> Vec<(zlink_core::Reply<simnet::svc::Out>, Value)> {
+    let tags = [format!("first-{k}"), format!("snapshot-{k}-{}", "\u{e4}bcdefghi".repeat(70_000)), format!("last-{k}")];
+    tags.into_iter()
+        .enumerate()
+        .map(|(i, tag)| {
+            let last = i == 2;
+            let out = simnet::svc::Out { n: k * 10 + i as u32, tag: tag.clone() };
+            let mut v = json!({"parameters": {"n": out.n, "tag": tag}});
+            if !last {
+                v["continues"] = json!(true);
+            }
+            (zlink_core::Reply::new(Some(out)).set_continues(Some(!last)), v)
+        })
+        .collect()
 }
 
 #[derive(Clone, Copy, Debug, PartialEq, Eq)]
@@ -101,6 +122,7 @@ impl RealSrv {
             "F" => K::F,
             "B" => K::B,
             "G" => K::G,
+            "W" => K::W,
             _ => K::H,
         };
         Some(RealSrv {
@@ -213,7 +235,7 @@ impl RealSrv {
             let ending = if self.fairness || fixed { Ending::Stays } else { self.endings[cx.choose(self.endings.len(), "ending:stays|half-closes|closes")] };
             let early = ending != Ending::Stays && cx.choose(2, "ends:after-the-server-went-idle|right-after-writing") == 1;
             let ids: Vec<u32> = (0..kinds.len()).map(|j| (i as u32 + 1) * 100 + j as u32).collect();
-            let expected: Vec<Value> = kinds.iter().zip(&ids).filter_map(|(k, id)| call(*k, *id).1).collect();
+            let expected: Vec<Value> = kinds.iter().zip(&ids).flat_map(|(k, id)| if *k == K::W { stream_items(*id).into_iter().map(|(_, v)| v).collect::<Vec<_>>() } else { call(*k, *id).1.into_iter().collect() }).collect();
             clients.push(Client { sock: None, kinds, ids, expected, ending, early, out: vec![], ended: false, pending: vec![] });
         }
         // when the server first runs: before the clients connect / before they write / only at the end
@@ -321,6 +343,20 @@ impl RealSrv {
             }};
         }
         pump!();
+        settle!();
+        // streams the service has opened produce their items and end
+        for c in clients.iter() {
+            for (k, id) in c.kinds.iter().zip(&c.ids) {
+                if *k == K::W {
+                    let Some(h) = shared.streams.borrow().get(id).cloned() else { return Verdict::fail("server:call-never-handled", what(&format!("the streaming call {id} was never handed to the service"))) };
+                    for (item, _) in stream_items(*id) {
+                        h.produce(item);
+                    }
+                    h.end();
+                    cx.goal("stream-item-of-several-socket-writes");
+                }
+            }
+        }
         settle!();
         for c in clients.iter_mut() {
             if c.pending.is_empty() {
